@@ -168,4 +168,580 @@ theorem newF_raw : ∀ (fuel : Nat), RawRec (Parse.newF fuel) := by
 theorem parse_new_raw (s : Str) (v : PV) (h : Parse.new s = .ok v) : Raw v = true :=
   newF_raw _ s v h
 
+/-! ### trees by membership -/
+
+theorem TreeK_iff (P : List Str → PV → Prop) (pre : List Str) :
+    ∀ keys : List (Str × PV), TreeK P pre keys ↔ ∀ kv ∈ keys, TreeV P (pre ++ [kv.1]) kv.2
+  | [] => by simp [TreeK]
+  | (k, v) :: rest => by simp [TreeK, TreeK_iff P pre rest]
+
+theorem SortedK_iff : ∀ keys : List (Str × PV), SortedK keys ↔ ∀ kv ∈ keys, SortedV kv.2
+  | [] => by simp [SortedK]
+  | (k, v) :: rest => by simp [SortedK, SortedK_iff rest]
+
+theorem TreeV_leaf (P : List Str → PV → Prop) (here : List Str) (v : PV) (h : isGroup v = false) :
+    TreeV P here v ↔ P here v := by
+  cases v <;> simp [TreeV, isGroup] at h ⊢
+
+theorem Raw_not_group {v : PV} (h : Raw v = true) : isGroup v = false := by
+  cases v <;> simp [Raw, isGroup] at h ⊢
+
+theorem SortedV_leaf {v : PV} (h : isGroup v = false) : SortedV v := by
+  cases v <;> simp [SortedV, isGroup] at h ⊢
+
+/-! ### `Decode.value` -/
+
+/-- what `Decode.value` produces -/
+def ValOK (inRange : Bool) (v : PV) : Prop :=
+  (inRange = true → Raw v = true) ∧ (∀ pre, TreeV (fun _ v => Raw v = true) pre v) ∧ SortedV v
+
+theorem ValOK_of_raw {inRange : Bool} {v : PV} (h : Raw v = true) : ValOK inRange v :=
+  ⟨fun _ => h, fun pre => (TreeV_leaf _ pre v (Raw_not_group h)).mpr h, SortedV_leaf (Raw_not_group h)⟩
+
+theorem RawB_iff : ∀ (m : List (Range × PV)), RawB m = true ↔ ∀ kv ∈ m, Raw kv.2 = true
+  | [] => by simp [RawB]
+  | (k, v) :: rest => by simp [RawB, RawB_iff rest]
+
+theorem pairs_raw (pair : RangeTy → J → Res (Range × PV)) (t : RangeTy) :
+    ∀ (l : List J) (r : List (Range × PV)), (∀ x ∈ l, ∀ p, pair t x = .ok p → Raw p.2 = true) →
+      Decode.value.pairs pair t l = .ok r → RawB r = true := by
+  intro l
+  induction l with
+  | nil => intro r _ h; simp only [Decode.value.pairs, Res.ok.injEq] at h; subst h; simp [RawB]
+  | cons x xs ih =>
+    intro r hp h
+    simp only [Decode.value.pairs] at h
+    split at h
+    · simp at h
+    · simp at h
+    · rename_i p hpx
+      split at h
+      · simp at h
+      · simp at h
+      · rename_i ps hps
+        simp only [Res.ok.injEq] at h; subst h
+        obtain ⟨rg, pv⟩ := p
+        have h1 := hp x (by simp) _ hpx
+        have h2 := ih ps (fun y hy => hp y (by simp [hy])) hps
+        simp only [RawB, Bool.and_eq_true]
+        exact ⟨h1, h2⟩
+
+theorem pairF_raw (fuel : Nat) (top : Str)
+    (ih : ∀ (key : Str) (j : J) (v : PV), Decode.value fuel top true key j = .ok v → Raw v = true)
+    (t : RangeTy) (x : J) (p : Range × PV) (h : Decode.pairF fuel top t x = .ok p) : Raw p.2 = true := by
+  unfold Decode.pairF at h
+  split at h
+  · split at h
+    · simp at h
+    · simp at h
+    · split at h
+      · repeat' split at h
+        all_goals simp at h
+      · split at h
+        · split at h
+          · rename_i pv hv
+            simp only [Res.ok.injEq] at h; subst h; exact ih _ _ _ hv
+          · simp at h
+          · simp at h
+        · split at h
+          · rename_i pv _ hv
+            simp only [Res.ok.injEq] at h; subst h; exact ih _ _ _ hv
+          all_goals simp at h
+  · split at h
+    · simp at h
+    · simp at h
+    · rename_i pv hv
+      split at h
+      · simp only [Res.ok.injEq] at h; subst h; exact ih _ _ _ hv
+      · simp at h
+      · simp at h
+  · simp at h
+
+theorem localeKeys_inv (fuel : Nat) (top : Str)
+    (ih : ∀ (key : Str) (j : J) (v : PV), Decode.value fuel top false key j = .ok v → ValOK false v) :
+    ∀ (l : List (Str × J)) (acc r : List (Str × PV)), Sorted acc → (∀ kv ∈ acc, ValOK false kv.2) →
+      Decode.value.localeKeys fuel top l acc = .ok r → Sorted r ∧ ∀ kv ∈ r, ValOK false kv.2 := by
+  intro l
+  induction l with
+  | nil =>
+    intro acc r hs ha h
+    simp only [Decode.value.localeKeys, Res.ok.injEq] at h; subst h; exact ⟨hs, ha⟩
+  | cons p rest ihl =>
+    intro acc r hs ha h
+    obtain ⟨k, x⟩ := p
+    simp only [Decode.value.localeKeys] at h
+    split at h
+    · simp at h
+    · rename_i key' _
+      split at h
+      · simp at h
+      · simp at h
+      · rename_i pv hv
+        split at h
+        · simp at h
+        · have hsp := AMap.insert'_spec key' pv (m := acc) hs
+          refine ihl _ _ hsp.1 ?_ h
+          intro kv hkv
+          rcases (hsp.2 kv).mp hkv with e | ⟨hm, _⟩
+          · subst e; exact ih _ _ _ hv
+          · exact ha kv hm
+
+theorem value_ok : ∀ (fuel : Nat) (top : Str) (inRange : Bool) (key : Str) (j : J) (v : PV),
+    Decode.value fuel top inRange key j = .ok v → ValOK inRange v := by
+  intro fuel
+  induction fuel with
+  | zero => intro _ _ _ _ v h; simp [Decode.value] at h
+  | succ fuel ih =>
+    intro top inRange key j v h
+    cases j with
+    | str s => simp only [Decode.value] at h; exact ValOK_of_raw (parse_new_raw _ _ h)
+    | bool b => simp only [Decode.value, Res.ok.injEq] at h; subst h; exact ValOK_of_raw (by simp [Raw])
+    | signed i => simp only [Decode.value, Res.ok.injEq] at h; subst h; exact ValOK_of_raw (by simp [Raw])
+    | unsigned n => simp only [Decode.value, Res.ok.injEq] at h; subst h; exact ValOK_of_raw (by simp [Raw])
+    | float d => simp only [Decode.value, Res.ok.injEq] at h; subst h; exact ValOK_of_raw (by simp [Raw])
+    | null =>
+      simp only [Decode.value] at h
+      split at h
+      · simp at h
+      · simp only [Res.ok.injEq] at h; subst h; exact ValOK_of_raw (by simp [Raw])
+    | obj l =>
+      simp only [Decode.value] at h
+      split at h
+      · simp at h
+      · rename_i hir
+        split at h
+        · rename_i keys hk
+          simp only [Res.ok.injEq] at h; subst h
+          have := localeKeys_inv fuel top (fun key j v hv => ih top false key j v hv) l [] keys
+            (by simp [Sorted]) (by simp) hk
+          refine ⟨fun e => absurd e hir, fun pre => ?_, ?_⟩
+          · simp only [TreeV]
+            rw [TreeK_iff]
+            intro kv hkv
+            exact (this.2 kv hkv).2.1 _
+          · simp only [SortedV]
+            refine ⟨this.1, ?_⟩
+            rw [SortedK_iff]
+            intro kv hkv
+            exact (this.2 kv hkv).2.2
+        · simp at h
+        · simp at h
+    | arr l =>
+      have hp : ∀ t, ∀ (l : List J) (r : List (Range × PV)),
+          Decode.value.pairs (Decode.pairF fuel top) t l = .ok r → RawB r = true :=
+        fun t l r hr => pairs_raw _ t l r
+          (fun x _ p hpx => pairF_raw fuel top (fun key j v hv => (ih top true key j v hv).1 rfl) t x p hpx) hr
+      cases l with
+      | nil => simp only [Decode.value] at h; split at h <;> simp at h
+      | cons first rest =>
+        cases first <;> simp only [Decode.value] at h
+        all_goals
+          split at h
+          · simp at h
+          · skip
+            repeat' split at h
+            all_goals first
+              | (simp at h; done)
+              | skip
+            all_goals
+              simp only [Res.ok.injEq] at h; subst h
+              apply ValOK_of_raw
+              simp only [Raw]
+              rename_i hq _ _ _ _
+              repeat' split at hq
+              all_goals first
+                | (simp at hq; done)
+                | (rename_i h3
+                   simp only [Res.ok.injEq, Prod.mk.injEq] at hq
+                   rw [← hq.2]
+                   exact hp _ _ _ h3)
+
+/-- a decoded locale: named after the locale, key maps sorted at every depth, every leaf `Raw` -/
+theorem locale_ok (name : Str) (j : J) (l : Loc) (h : Decode.locale name j = .ok l) :
+    l.name = name ∧ SortedTree l.keys ∧ TreeK (fun _ v => Raw v = true) [] l.keys := by
+  unfold Decode.locale at h
+  split at h
+  · rename_i fields
+    split at h
+    · rename_i l' hv
+      simp only [Res.ok.injEq] at h; subst h
+      have hok := value_ok _ _ _ _ _ _ hv
+      simp only [Decode.value] at hv
+      simp only [Bool.false_eq_true, if_false] at hv
+      split at hv
+      · rename_i keys _
+        simp only [Res.ok.injEq, PV.subkeys.injEq, Option.some.injEq] at hv
+        subst hv
+        have h2 := hok.2.1 []
+        have h3 := hok.2.2
+        simp only [TreeV, SortedV] at h2 h3
+        exact ⟨rfl, h3, h2⟩
+      · simp at hv
+      · simp at hv
+    · simp at h
+    · simp at h
+    · simp at h
+  · simp at h
+
+/-! ### `decodeNs`, `decodeAll` -/
+
+theorem decodeNs_ok (inp : Pipeline.Input) (ns : Option Str) : ∀ (names : List Str) (locs : List Loc),
+    Pipeline.decodeNs inp ns names = .ok locs →
+      locs.map Loc.name = names ∧ ∀ l ∈ locs, ∃ name j, Decode.locale name j = .ok l := by
+  intro names
+  induction names with
+  | nil =>
+    intro locs h
+    simp only [Pipeline.decodeNs, Res.ok.injEq] at h; subst h; simp
+  | cons n rest ih =>
+    intro locs h
+    simp only [Pipeline.decodeNs] at h
+    split at h
+    · simp at h
+    · rename_i j _
+      split at h
+      · simp at h
+      · simp at h
+      · rename_i loc hloc
+        split at h
+        · rename_i locs' hrest
+          simp only [Res.ok.injEq] at h; subst h
+          have ih' := ih _ hrest
+          refine ⟨?_, ?_⟩
+          · simp only [List.map_cons, ih'.1, (locale_ok _ _ _ hloc).1]
+          · intro l hl
+            simp only [List.mem_cons] at hl
+            rcases hl with e | hl
+            · subst e; exact ⟨n, j, hloc⟩
+            · exact ih'.2 l hl
+        · simp at h
+        · simp at h
+
+theorem decodeAll_ok (inp : Pipeline.Input) : ∀ (keys : List (Option Str)) (nss : List NS),
+    Pipeline.decodeAll inp keys = .ok nss →
+      nss.map NS.key = keys ∧ ∀ ns ∈ nss, Pipeline.decodeNs inp ns.key inp.cfg.locales = .ok ns.locales := by
+  intro keys
+  induction keys with
+  | nil =>
+    intro nss h
+    simp only [Pipeline.decodeAll, Res.ok.injEq] at h; subst h; simp
+  | cons k rest ih =>
+    intro nss h
+    simp only [Pipeline.decodeAll] at h
+    split at h
+    · simp at h
+    · simp at h
+    · rename_i locs hlocs
+      split at h
+      · rename_i nss' hrest
+        simp only [Res.ok.injEq] at h; subst h
+        have ih' := ih _ hrest
+        refine ⟨by simp only [List.map_cons, ih'.1], ?_⟩
+        intro ns hns
+        simp only [List.mem_cons] at hns
+        rcases hns with e | hns
+        · subst e; exact hlocs
+        · exact ih'.2 ns hns
+      · simp at h
+      · simp at h
+
+theorem decodeNs_np (inp : Pipeline.Input) (ns : Option Str) (s : String) : ∀ (names : List Str),
+    Pipeline.decodeNs inp ns names ≠ .panic s := by
+  intro names
+  induction names with
+  | nil => simp [Pipeline.decodeNs]
+  | cons n rest ih =>
+    intro h
+    simp only [Pipeline.decodeNs] at h
+    split at h
+    · simp at h
+    · rename_i j _
+      have hnp := Decode.locale_np n j
+      split at h
+      · simp at h
+      · rename_i p hp; rw [hp] at hnp; simp [Res.isPanic] at hnp
+      · split at h
+        · simp at h
+        · simp at h
+        · rename_i p hp
+          simp only [Res.panic.injEq] at h; subst h
+          exact ih hp
+
+theorem decodeAll_np (inp : Pipeline.Input) (s : String) : ∀ (keys : List (Option Str)),
+    Pipeline.decodeAll inp keys ≠ .panic s := by
+  intro keys
+  induction keys with
+  | nil => simp [Pipeline.decodeAll]
+  | cons k rest ih =>
+    intro h
+    simp only [Pipeline.decodeAll] at h
+    split at h
+    · simp at h
+    · rename_i p hp; exact decodeNs_np inp k p _ hp
+    · split at h
+      · simp at h
+      · simp at h
+      · rename_i p hp
+        simp only [Res.panic.injEq] at h; subst h
+        exact ih hp
+
+/-- decoding never panics -/
+theorem parseRaw_no_panic (inp : Pipeline.Input) (s : String) : Pipeline.parseRaw inp ≠ .panic s := by
+  intro h
+  unfold Pipeline.parseRaw at h
+  simp only at h
+  split at h
+  · simp at h
+  · rename_i p hp; exact decodeAll_np inp p _ hp
+  · simp at h
+
+/-! ### `insertSorted`: the order of the `BTreeSet` is total, so nothing is lost -/
+
+theorem listLt_total : ∀ {a b : List Str}, Pipeline.listLt AMap.strLt a b = false →
+    Pipeline.listLt AMap.strLt b a = false → a = b
+  | [], [], _, _ => rfl
+  | [], _ :: _, h, _ => by simp [Pipeline.listLt] at h
+  | _ :: _, [], _, h => by simp [Pipeline.listLt] at h
+  | x :: xs, y :: ys, h1, h2 => by
+    simp only [Pipeline.listLt] at h1 h2
+    cases hxy : AMap.strLt x y <;> cases hyx : AMap.strLt y x <;>
+      simp only [hxy, hyx, if_true, if_false, Bool.false_eq_true, reduceCtorEq] at h1 h2
+    rw [AMap.strLt_total hxy hyx, listLt_total h1 h2]
+
+theorem pathLt_total {a b : Str × KeyPath} (h1 : Pipeline.pathLt a b = false)
+    (h2 : Pipeline.pathLt b a = false) : a = b := by
+  obtain ⟨a1, ans, ap⟩ := a
+  obtain ⟨b1, bns, bp⟩ := b
+  simp only [Pipeline.pathLt] at h1 h2
+  cases hxy : AMap.strLt a1 b1 <;> cases hyx : AMap.strLt b1 a1 <;>
+    simp only [hxy, hyx, if_true, if_false, Bool.false_eq_true, reduceCtorEq] at h1 h2
+  have e1 := AMap.strLt_total hxy hyx
+  subst e1
+  cases ans with
+  | none =>
+    cases bns with
+    | none => simp only at h1 h2; rw [listLt_total h1 h2]
+    | some y => simp at h1
+  | some x =>
+    cases bns with
+    | none => simp at h2
+    | some y =>
+      simp only at h1 h2
+      cases hxy' : AMap.strLt x y <;> cases hyx' : AMap.strLt y x <;>
+        simp only [hxy', hyx', if_true, if_false, Bool.false_eq_true, reduceCtorEq] at h1 h2
+      rw [AMap.strLt_total hxy' hyx', listLt_total h1 h2]
+
+theorem mem_insertSorted {x y : Str × KeyPath} : ∀ {l : List (Str × KeyPath)},
+    x ∈ Pipeline.insertSorted y l ↔ x = y ∨ x ∈ l
+  | [] => by simp [Pipeline.insertSorted]
+  | z :: zs => by
+    simp only [Pipeline.insertSorted]
+    split
+    · simp
+    · rename_i h1
+      split
+      · simp only [List.mem_cons, mem_insertSorted (l := zs)]
+        constructor
+        · rintro (h | h | h)
+          · exact .inr (.inl h)
+          · exact .inl h
+          · exact .inr (.inr h)
+        · rintro (h | h | h)
+          · exact .inr (.inl h)
+          · exact .inl h
+          · exact .inr (.inr h)
+      · rename_i h2
+        have e : y = z := pathLt_total (by simpa using h1) (by simpa using h2)
+        subst e
+        simp only [List.mem_cons]
+        constructor
+        · exact .inr
+        · rintro (h | h)
+          · exact .inl h
+          · exact h
+
+/-- membership in a fold whose step adds the elements of `g a` -/
+theorem mem_foldl_iff {α γ : Type} (f : List γ → α → List γ) (g : α → List γ)
+    (hf : ∀ acc a x, x ∈ f acc a ↔ x ∈ acc ∨ x ∈ g a) :
+    ∀ (l : List α) (acc : List γ) (x : γ), x ∈ l.foldl f acc ↔ x ∈ acc ∨ ∃ a ∈ l, x ∈ g a
+  | [], acc, x => by simp
+  | a :: rest, acc, x => by
+    simp only [List.foldl_cons, mem_foldl_iff f g hf rest, hf, List.mem_cons]
+    constructor
+    · rintro ((h | h) | ⟨b, hb, h⟩)
+      · exact .inl h
+      · exact .inr ⟨a, .inl rfl, h⟩
+      · exact .inr ⟨b, .inr hb, h⟩
+    · rintro (h | ⟨b, hb | hb, h⟩)
+      · exact .inl (.inl h)
+      · subst hb; exact .inl (.inr h)
+      · exact .inr ⟨b, hb, h⟩
+
+/-- the registered paths are exactly the paths `fkPathsOf` finds in some locale -/
+theorem mem_paths (F : Nat) (nss : List NS) (x : Str × KeyPath) :
+    x ∈ nss.foldl (fun acc ns =>
+        ns.locales.foldl (fun acc l =>
+          (Pipeline.fkPathsOf l.name F ⟨ns.key, []⟩ l.keys).foldl
+            (fun a p => Pipeline.insertSorted p a) acc) acc) [] ↔
+      ∃ ns ∈ nss, ∃ l ∈ ns.locales, x ∈ Pipeline.fkPathsOf l.name F ⟨ns.key, []⟩ l.keys := by
+  have h1 : ∀ (ps acc : List (Str × KeyPath)) (x : Str × KeyPath),
+      x ∈ ps.foldl (fun a p => Pipeline.insertSorted p a) acc ↔ x ∈ acc ∨ x ∈ ps := by
+    intro ps acc x
+    rw [mem_foldl_iff (fun a p => Pipeline.insertSorted p a) (fun p => [p])
+      (fun acc a x => by simp only [mem_insertSorted, List.mem_singleton]; exact Or.comm)]
+    simp
+  have h2 : ∀ (k : Option Str) (locs : List Loc) (acc : List (Str × KeyPath)) (x : Str × KeyPath),
+      x ∈ locs.foldl (fun acc l =>
+          (Pipeline.fkPathsOf l.name F ⟨k, []⟩ l.keys).foldl
+            (fun a p => Pipeline.insertSorted p a) acc) acc ↔
+        x ∈ acc ∨ ∃ l ∈ locs, x ∈ Pipeline.fkPathsOf l.name F ⟨k, []⟩ l.keys := by
+    intro k locs acc x
+    exact mem_foldl_iff _ (fun l => Pipeline.fkPathsOf l.name F ⟨k, []⟩ l.keys)
+      (fun acc a x => h1 _ acc x) locs acc x
+  rw [mem_foldl_iff _ (fun ns => ns.locales.flatMap
+      (fun l => Pipeline.fkPathsOf l.name F ⟨ns.key, []⟩ l.keys))
+    (fun acc ns x => by rw [h2]; simp only [List.mem_flatMap])]
+  simp only [List.not_mem_nil, false_or, List.mem_flatMap]
+
+/-! ### `fkPathsOf` -/
+
+/-- what one entry of a key map contributes to `fkPathsOf` -/
+def fkOne (locale : Str) (fuel : Nat) (path : KeyPath) (kv : Str × PV) : List (Str × KeyPath) :=
+  match kv.2 with
+  | .subkeys (some l) => Pipeline.fkPathsOf locale fuel (Plurals.pushKey path kv.1) l.keys
+  | v => if Foreign.hasFK 1000000 v then [(locale, Plurals.pushKey path kv.1)] else []
+
+theorem mem_fkPathsOf_succ (locale : Str) (fuel : Nat) (path : KeyPath) (keys : List (Str × PV))
+    (x : Str × KeyPath) :
+    x ∈ Pipeline.fkPathsOf locale (fuel + 1) path keys ↔ ∃ kv ∈ keys, x ∈ fkOne locale fuel path kv := by
+  simp only [Pipeline.fkPathsOf]
+  rw [mem_foldl_iff _ (fkOne locale fuel path)]
+  · simp
+  · intro acc kv x
+    obtain ⟨k, v⟩ := kv
+    simp only [fkOne]
+    split
+    · simp
+    · split <;> rename_i h <;> simp [h]
+
+theorem hasFK_subkeys (fuel : Nat) (l : Option Loc) : Foreign.hasFK fuel (.subkeys l) = false := by
+  simp [Foreign.hasFK, Foreign.containsFK]
+
+theorem fkOne_group (locale : Str) (fuel : Nat) (path : KeyPath) (k n t : Str) (ks : List (Str × PV))
+    (ss : List Str) (c : Nat) :
+    fkOne locale fuel path (k, .subkeys (some (.mk n t ks ss c))) =
+      Pipeline.fkPathsOf locale fuel (Plurals.pushKey path k) ks := rfl
+
+theorem fkOne_leaf (locale : Str) (fuel : Nat) (path : KeyPath) (k : Str) (v : PV) (h : isGroup v = false) :
+    fkOne locale fuel path (k, v) =
+      if Foreign.hasFK 1000000 v then [(locale, Plurals.pushKey path k)] else [] := by
+  cases v <;> first | rfl | simp [isGroup] at h
+
+theorem gDepth_mem {k : Str} {v : PV} : ∀ {keys : List (Str × PV)}, (k, v) ∈ keys → gDepthV v ≤ gDepthK keys
+  | [], h => by simp at h
+  | (k', v') :: rest, h => by
+    simp only [List.mem_cons, Prod.mk.injEq] at h
+    simp only [gDepthK]
+    rcases h with ⟨_, e⟩ | h
+    · subst e; omega
+    · have := gDepth_mem h; omega
+
+/-- completeness of `fkPathsOf` (for trees whose groups are nested less deep than the fuel): every leaf
+    in which `hasFK` sees a foreign key is found -/
+theorem fkPathsOf_complete (locale : Str) (Q : List Str → PV → Prop) (S : List (Str × KeyPath)) :
+    ∀ (fuel : Nat) (path : KeyPath) (pre : List Str) (keys : List (Str × PV)),
+      gDepthK keys < fuel → TreeK Q pre keys →
+      (∀ x ∈ Pipeline.fkPathsOf locale fuel path keys, x ∈ S) →
+      TreeK (fun q v => Foreign.hasFK 1000000 v = true → (locale, (⟨path.ns, q⟩ : KeyPath)) ∈ S)
+        path.path keys := by
+  intro fuel
+  induction fuel with
+  | zero => intro _ _ _ h; omega
+  | succ fuel ih =>
+    intro path pre keys hd hq hS
+    rw [TreeK_iff] at hq ⊢
+    intro kv hkv
+    obtain ⟨k, v⟩ := kv
+    have hq1 := hq _ hkv
+    have hS1 : ∀ x ∈ fkOne locale fuel path (k, v), x ∈ S :=
+      fun x hx => hS x ((mem_fkPathsOf_succ _ _ _ _ _).mpr ⟨_, hkv, hx⟩)
+    have hd1 : gDepthV v < fuel + 1 := Nat.lt_of_le_of_lt (gDepth_mem hkv) hd
+    cases hg : isGroup v with
+    | false =>
+      rw [TreeV_leaf _ _ _ hg]
+      intro hfk
+      rw [fkOne_leaf _ _ _ _ _ hg, if_pos hfk] at hS1
+      exact hS1 _ (List.mem_singleton.mpr rfl)
+    | true =>
+      cases v with
+      | subkeys l =>
+        cases l with
+        | none => simp [TreeV] at hq1
+        | some l =>
+          obtain ⟨n, t, ks, ss, c⟩ := l
+          simp only [TreeV] at hq1 ⊢
+          rw [fkOne_group] at hS1
+          simp only [gDepthV] at hd1
+          exact ih (Plurals.pushKey path k) _ ks (by omega) hq1 hS1
+      | _ => simp [isGroup] at hg
+
+theorem get?_of_mem_sorted {α} : ∀ (m : List (Str × α)), Sorted m → ∀ p ∈ m, AMap.get? p.1 m = some p.2
+  | [], _, p, hp => by cases hp
+  | (k', v') :: rest, h, p, hp => by
+    unfold Sorted at h
+    rw [List.pairwise_cons] at h
+    rcases List.mem_cons.mp hp with rfl | hp
+    · simp [AMap.get?]
+    · have hlt := h.1 p hp
+      have : k' ≠ p.1 := by
+        intro e; rw [e, AMap.strLt_irrefl] at hlt; cases hlt
+      simp only [AMap.get?, beq_iff_eq, this, if_false]
+      exact get?_of_mem_sorted rest h.2 p hp
+
+/-- soundness of `fkPathsOf` on a tree sorted at every depth: every path found is the path of a leaf -/
+theorem fkPathsOf_sound (locale : Str) : ∀ (fuel : Nat) (path : KeyPath) (keys : List (Str × PV)),
+    Sorted keys → SortedK keys → ∀ x ∈ Pipeline.fkPathsOf locale fuel path keys,
+      ∃ q v, x = (locale, (⟨path.ns, path.path ++ q⟩ : KeyPath)) ∧
+        World.locGet keys q = .ok (some v) ∧ isGroup v = false := by
+  intro fuel
+  induction fuel with
+  | zero => intro _ _ _ _ x hx; simp [Pipeline.fkPathsOf] at hx
+  | succ fuel ih =>
+    intro path keys hs hsk x hx
+    obtain ⟨kv, hkv, hx⟩ := (mem_fkPathsOf_succ _ _ _ _ _).mp hx
+    obtain ⟨k, v⟩ := kv
+    have hget : AMap.get? k keys = some v := get?_of_mem_sorted keys hs _ hkv
+    have hsv : SortedV v := (SortedK_iff keys).mp hsk _ hkv
+    cases hg : isGroup v with
+    | false =>
+      rw [fkOne_leaf _ _ _ _ _ hg] at hx
+      split at hx
+      · simp only [List.mem_singleton] at hx
+        refine ⟨[k], v, hx, ?_, hg⟩
+        simp only [World.locGet, hget]
+      · simp at hx
+    | true =>
+      cases v with
+      | subkeys l =>
+        cases l with
+        | none =>
+          have : fkOne locale fuel path (k, .subkeys none) =
+              if Foreign.hasFK 1000000 (.subkeys none) then [(locale, Plurals.pushKey path k)] else [] := rfl
+          rw [this, hasFK_subkeys] at hx
+          simp at hx
+        | some l =>
+          obtain ⟨n, t, ks, ss, c⟩ := l
+          rw [fkOne_group] at hx
+          simp only [SortedV] at hsv
+          obtain ⟨q', v', hxe, hl, hgv⟩ := ih (Plurals.pushKey path k) ks hsv.1 hsv.2 x hx
+          refine ⟨k :: q', v', ?_, ?_, hgv⟩
+          · rw [hxe]; simp [Plurals.pushKey]
+          · cases q' with
+            | nil => simp [World.locGet] at hl
+            | cons k2 rest =>
+              rw [World.locGet]
+              · simp only [hget]; exact hl
+              · simp
+      | _ => simp [isGroup] at hg
+
 end I18nVerif.PipeInv
